@@ -19,6 +19,7 @@ func init() {
 			"(single-write) Message.Write passes its writer to exactly one call, once on every success path, with the bytes of a private buffer that received the header and then the payload; it refuses len(Payload)!=Size; endPoint.Send only forwards to it; " +
 			"(stream-owner) the endpoint's stream is only used by Send→Message.Write, process→Message.Read, Close and String; io.Reader.Read/io.Writer.Write are invoked only by basic.ReadN/WriteN and the Stream forwarders; " +
 			"(order) process reads one message and dispatches it synchronously (plain call) before the next read; dispatch enqueues under handlersMutex with a non-blocking select, on a queue only if that handler's own filter matched (shared with C17). " +
+			"(write-whole) WriteN hands the whole remaining buffer to each Write; a handler slot is found and filled in one critical section. " +
 			"Not decided: atomicity of one Write on each transport, per-sender order under all schedules.",
 		Assumptions: []string{"a single Write call on net.Conn / tls.Conn / os.File is not interleaved with another goroutine's Write", "bytes.Buffer semantics"},
 		Run:         runC10,
